@@ -209,4 +209,343 @@ Proof. apply NS_of_NC, NCt_send_client_info. lia. Qed.
 Lemma NS_send_ack c : NS (send_ack cfg FUEL c).
 Proof. apply NS_of_NC, NCt_send_ack. lia. Qed.
 
+(* ---------- subscriptions ---------- *)
+
+Lemma live_bound s : length (mods s) = n -> (live s <= n)%nat.
+Proof. intros H. pose proof (live_le s). lia. Qed.
+
+Lemma NS_add_subscription c t s : m_reg (find_mod c (mods s)) = true -> NSat s (add_subscription cfg FUEL c t).
+Proof.
+  intros Hreg Hs Hl. pose proof Hs as (H & _). unfold Len in Hl.
+  destruct (reg_open s c H Hreg) as (Hopen & Hc & Hin).
+  pose proof (find_mod_conn_of_reg _ _ Hreg) as Hcc.
+  unfold add_subscription. unfold bind at 1. unfold get.
+  destruct (t =? ALL_MESSAGE_TYPES) eqn:Et.
+  - apply Z.eqb_eq in Et. subst t.
+    set (sb1 := drop_subs c (m_subs (find_mod c (mods s))) (subs s)).
+    set (ms' := upd_mod c (fun m => mm_subs m [ALLT]) (mods s)).
+    set (s3 := with_mods (with_subs (with_subs s sb1) (aupdate ALLT (zinsert c) sb1)) ms').
+    assert (H3 : RegInv s3).
+    { unfold RegInv, RegInvX, s3. simpl.
+      assert (A : reg_ok [] (mods s) sb1 (loggers s) (next_uid s)) by (apply reg_ok_drop_subs; exact H).
+      assert (B : reg_ok [] ms' sb1 (loggers s) (next_uid s)).
+      { apply reg_ok_set_subs_absent; auto. intros t. apply (drop_subs_gone _ _ _ _ _ c H t). }
+      assert (Hf : find_mod c ms' = mm_subs (find_mod c (mods s)) [ALLT]).
+      { unfold ms'. rewrite find_upd_hit; auto. intro; reflexivity. }
+      apply reg_ok_list_add; auto; rewrite Hf; simpl; auto. }
+    assert (L3 : length (mods s3) = n) by (unfold s3, ms'; simpl; rewrite upd_mod_length; exact Hl).
+    change (match (mlog cfg FUEL 10) s3 with Ok _ _ => True | Crash _ _ => False end).
+    apply (NCt_mlog [] n 10 ltac:(lia) s3 H3 (live_bound s3 L3)).
+  - destruct (zmem ALL_MESSAGE_TYPES (m_subs (find_mod c (mods s)))) eqn:Eall; [exact I|].
+    apply zmem_false in Eall. apply Z.eqb_neq in Et.
+    set (s3 := with_mods (with_subs s (aupdate t (zinsert c) (subs s)))
+                         (upd_mod c (fun m => mm_subs m (zinsert t (m_subs m))) (mods s))).
+    assert (H3 : RegInv s3).
+    { unfold RegInv, RegInvX, s3. simpl. apply reg_ok_sub_one; auto. }
+    assert (L3 : length (mods s3) = n) by (unfold s3; simpl; rewrite upd_mod_length; exact Hl).
+    change (match (mlog cfg FUEL 10) s3 with Ok _ _ => True | Crash _ _ => False end).
+    apply (NCt_mlog [] n 10 ltac:(lia) s3 H3 (live_bound s3 L3)).
+Qed.
+
+Lemma NS_remove_subscription c t s : m_reg (find_mod c (mods s)) = true -> NSat s (remove_subscription cfg FUEL c t).
+Proof.
+  intros Hreg Hs Hl. pose proof Hs as (H & _). unfold Len in Hl.
+  destruct (reg_open s c H Hreg) as (Hopen & Hc & Hin).
+  unfold remove_subscription. unfold bind at 1. unfold get.
+  destruct (t =? ALL_MESSAGE_TYPES) eqn:Et.
+  - apply Z.eqb_eq in Et. subst t.
+    set (sb1 := aupdate ALLT (zremove c) (subs s)).
+    set (sb2 := drop_subs c (m_subs (find_mod c (mods s))) sb1).
+    set (ms' := upd_mod c (fun m => mm_subs m []) (mods s)).
+    set (s3 := with_mods (with_subs (with_subs s sb1) sb2) ms').
+    assert (H3 : RegInv s3).
+    { unfold RegInv, RegInvX, s3. simpl.
+      assert (A : reg_ok [] (mods s) sb1 (loggers s) (next_uid s)) by (apply reg_ok_aupdate_remove; exact H).
+      assert (B : reg_ok [] (mods s) sb2 (loggers s) (next_uid s)) by (apply reg_ok_drop_subs; exact A).
+      apply reg_ok_set_subs_absent; auto.
+      - intros t. apply (drop_subs_gone _ _ _ _ _ c A t).
+      - simpl. tauto. }
+    assert (L3 : length (mods s3) = n) by (unfold s3, ms'; simpl; rewrite upd_mod_length; exact Hl).
+    change (match (mlog cfg FUEL 10) s3 with Ok _ _ => True | Crash _ _ => False end).
+    apply (NCt_mlog [] n 10 ltac:(lia) s3 H3 (live_bound s3 L3)).
+  - destruct (zmem ALL_MESSAGE_TYPES (m_subs (find_mod c (mods s)))) eqn:Eall; [exact I|].
+    apply zmem_false in Eall.
+    set (s3 := with_mods (with_subs s (aupdate t (zremove c) (subs s)))
+                         (upd_mod c (fun m => mm_subs m (zremove t (m_subs m))) (mods s))).
+    assert (H3 : RegInv s3).
+    { unfold RegInv, RegInvX, s3. simpl. apply reg_ok_unsub_one; auto. }
+    assert (L3 : length (mods s3) = n) by (unfold s3; simpl; rewrite upd_mod_length; exact Hl).
+    change (match (mlog cfg FUEL 10) s3 with Ok _ _ => True | Crash _ _ => False end).
+    apply (NCt_mlog [] n 10 ltac:(lia) s3 H3 (live_bound s3 L3)).
+Qed.
+
+(* ---------- the connect path ---------- *)
+
+Definition okr {A} (r : res A) : Prop := match r with Ok _ _ => True | Crash _ _ => False end.
+
+Lemma NCt_refuse c : NC [] n (mlog cfg FUEL 40 ;;; remove_module cfg FUEL c ;;; ret true).
+Proof.
+  apply NC_bind; [apply J_mlog_top|apply NCt_mlog; lia|]. intros _.
+  apply NC_bind; [apply J_remove_module_top; intros []|apply NCt_remove_module; [intros []|lia]|]. intros _. apply NC_ret.
+Qed.
+
+Lemma J_connect_scan c me : forall others, J [] (connect_scan cfg FUEL c me others).
+Proof.
+  assert (R : J [] (mlog cfg FUEL 40 ;;; remove_module cfg FUEL c ;;; ret true)).
+  { apply J_bind; [apply J_mlog_top|]. intros _. apply J_bind; [apply J_remove_module_top; intros []|]. intros _. apply J_ret. }
+  induction others as [|m r IH]; cbn [connect_scan]; [apply J_ret|].
+  destruct (m_conn m =? c); [exact IH|].
+  destruct ((m_mod_id m =? m_mod_id me) && (m_unique m || m_unique me)); [exact R|].
+  destruct (negb (m_name me =? 0)); [|exact IH].
+  destruct ((m_unique m || m_unique me) && (m_name m =? m_name me)); [exact R|].
+  apply J_bind; [apply J_mlog_top|]. intros _. exact IH.
+Qed.
+
+Lemma NCt_connect_scan c me : forall others, NC [] n (connect_scan cfg FUEL c me others).
+Proof.
+  induction others as [|m r IH]; cbn [connect_scan]; [apply NC_ret|].
+  destruct (m_conn m =? c); [exact IH|].
+  destruct ((m_mod_id m =? m_mod_id me) && (m_unique m || m_unique me)); [apply NCt_refuse|].
+  destruct (negb (m_name me =? 0)); [|exact IH].
+  destruct ((m_unique m || m_unique me) && (m_name m =? m_name me)); [apply NCt_refuse|].
+  apply NC_bind; [apply J_mlog_top|apply NCt_mlog; lia|]. intros _. exact IH.
+Qed.
+
+Lemma assign_ok s : RegInv s -> length (mods s) = n -> okr (assign_module_id cfg FUEL s).
+Proof.
+  intros H Hl. unfold assign_module_id. unfold bind at 1. unfold get. cbv zeta.
+  destruct (assign_loop (Z.to_nat MAX_DYN_IDS) (dyn_off s) (map m_mod_id (registered s))) as [[mid|] off'].
+  - exact I.
+  - unfold bind at 1. unfold modify. set (s1 := with_dyn s off').
+    assert (H1 : RegInv s1) by exact H. assert (L1 : length (mods s1) = n) by exact Hl.
+    unfold bind at 1. pose proof (NCt_mlog [] n 40 ltac:(lia) s1 H1 (live_bound s1 L1)) as N.
+    destruct (mlog cfg FUEL 40 s1) as [u s2|e s2]; [exact I|exact N].
+Qed.
+
+Lemma finish_conn_ok c s : okr (finish_conn c s).
+Proof.
+  unfold finish_conn, bind, set_mod, modify, get, ret. cbv beta.
+  destruct (m_logger _); exact I.
+Qed.
+
+Lemma phase2_ok c s : RegInv s -> DynInv s -> length (mods s) = n -> m_reg (find_mod c (mods s)) = true ->
+  okr (phase2 cfg FUEL c s).
+Proof.
+  intros H Hd Hl Hreg. unfold phase2. unfold bind at 1. unfold get. set (me := find_mod c (mods s)).
+  destruct (negb (m_mod_id me =? 0)) eqn:Eid.
+  - destruct (bad_user_id (m_mod_id me)) eqn:Ebad.
+    + unfold bind at 1. pose proof (NCt_refuse c s H (live_bound s Hl)) as N.
+      destruct ((mlog cfg FUEL 40;;; remove_module cfg FUEL c;;; ret true) s) as [b s1|e s1]; [|exact N].
+      destruct b; [exact I|apply finish_conn_ok].
+    + unfold bind at 1. pose proof (NCt_connect_scan c me (registered s) s H (live_bound s Hl)) as N.
+      destruct (connect_scan cfg FUEL c me (registered s) s) as [b s1|e s1]; [|exact N].
+      destruct b; [exact I|apply finish_conn_ok].
+  - unfold bind at 1. unfold bind at 1. pose proof (assign_spec cfg FUEL c s H Hd) as A.
+    pose proof (assign_ok s H Hl) as N.
+    destruct (assign_module_id cfg FUEL s) as [[mid|] s1|e s1]; [| |exact N].
+    + unfold bind at 1. unfold set_mod, modify. cbn [ret bind]. cbv beta iota. apply finish_conn_ok.
+    + destruct A as (H1 & K1 & D1). pose proof (KeepX_len _ _ _ K1) as L1.
+      unfold bind at 1.
+      pose proof (NCt_remove_module [] n c (fun x => x) ltac:(lia) s1 H1 (live_bound s1 ltac:(lia))) as Nr.
+      destruct (remove_module cfg FUEL c s1) as [u3 s3|e s3]; [exact I|exact Nr].
+Qed.
+
+Lemma connect_module_ok c h ip s : RegInv s -> DynInv s -> length (mods s) = n ->
+  m_reg (find_mod c (mods s)) = true -> okr (connect_module cfg FUEL c h ip s).
+Proof.
+  intros H Hd Hl Hreg. rewrite connect_module_unfold. unfold bind at 1. unfold get. cbv zeta.
+  destruct (m_connected (find_mod c (mods s))) eqn:Hcn; [exact I|].
+  assert (Finish : forall s1, RegInv s1 -> dyn_off s1 = dyn_off s -> length (mods s1) = n ->
+            m_reg (find_mod c (mods s1)) = true -> okr (phase2 cfg FUEL c s1)).
+  { intros s1 H1 D1 L1 R1. apply phase2_ok; auto. unfold DynInv; rewrite D1; exact Hd. }
+  assert (Refuse : forall s1, RegInv s1 -> length (mods s1) = n ->
+            okr ((bad <- (mlog cfg FUEL 40 ;;; remove_module cfg FUEL c ;;; ret true) ;;
+                  if bad then ret false else phase2 cfg FUEL c) s1)).
+  { intros s1 H1 L1. unfold bind at 1. pose proof (refuse_spec cfg FUEL c s1 H1) as R.
+    pose proof (NCt_refuse c s1 H1 (live_bound s1 L1)) as N.
+    destruct ((mlog cfg FUEL 40;;; remove_module cfg FUEL c;;; ret true) s1) as [b s2|e s2]; [|exact N].
+    destruct R as (-> & _). exact I. }
+  destruct ip as [id|lg dm|lg dm am mid pid name ascii|mt|pid|name ascii|].
+  + cbn [bind ret]. apply Finish; auto.
+  + unfold bind at 1. unfold bind at 1. unfold set_mod at 1, modify.
+    destruct (store_keeps c (fun m => mm_modid m (h_src_mod h)) s H (keeps_modid _) Hcn Hreg) as (A1 & A2 & A3 & A4 & A5).
+    pose proof (KeepX_len _ _ _ A2) as LA.
+    set (s1 := with_mods s (upd_mod c (fun m => mm_modid m (h_src_mod h)) (mods s))) in *.
+    unfold bind at 1. unfold set_mod at 1, modify.
+    destruct (store_keeps c (fun m => mm_flags m (lg =? 1) (dm =? 1)) s1 A1 (keeps_flags _ _) A3 A4) as (B1 & B2 & B3 & B4 & B5).
+    pose proof (KeepX_len _ _ _ B2) as LB.
+    set (s2 := with_mods s1 (upd_mod c (fun m => mm_flags m (lg =? 1) (dm =? 1)) (mods s1))) in *.
+    cbn [bind ret]. cbv beta iota. apply Finish; [exact B1|congruence|congruence|exact B4].
+  + unfold bind at 1. unfold bind at 1. unfold set_mod at 1, modify.
+    destruct (store_keeps c (fun m => mm_ident m mid pid (m_name m) (am =? 0)) s H (keeps_ident _ _ _) Hcn Hreg) as (A1 & A2 & A3 & A4 & A5).
+    pose proof (KeepX_len _ _ _ A2) as LA.
+    set (s1 := with_mods s (upd_mod c (fun m => mm_ident m mid pid (m_name m) (am =? 0)) (mods s))) in *.
+    destruct ascii.
+    * unfold bind at 1. unfold set_mod at 1, modify.
+      destruct (store_keeps c (fun m => mm_name m name) s1 A1 (keeps_name _) A3 A4) as (B1 & B2 & B3 & B4 & B5).
+      pose proof (KeepX_len _ _ _ B2) as LB.
+      set (s2 := with_mods s1 (upd_mod c (fun m => mm_name m name) (mods s1))) in *.
+      unfold bind at 1. unfold set_mod at 1, modify.
+      destruct (store_keeps c (fun m => mm_flags m (lg =? 1) (dm =? 1)) s2 B1 (keeps_flags _ _) B3 B4) as (C1 & C2 & C3 & C4 & C5).
+      pose proof (KeepX_len _ _ _ C2) as LC'.
+      set (s3 := with_mods s2 (upd_mod c (fun m => mm_flags m (lg =? 1) (dm =? 1)) (mods s2))) in *.
+      cbn [bind ret]. cbv beta iota. apply Finish; [exact C1|congruence|congruence|exact C4].
+    * apply (Refuse s1 A1). congruence.
+  + cbn [bind ret]. apply Finish; auto.
+  + cbn [bind ret]. apply Finish; auto.
+  + cbn [bind ret]. apply Finish; auto.
+  + cbn [bind ret]. apply Finish; auto.
+Qed.
+
+(* ---------- messages ---------- *)
+
+Lemma NS_process_message c h ip s : m_reg (find_mod c (mods s)) = true -> NSat s (process_message cfg FUEL c h ip).
+Proof.
+  intros Hreg Hs Hl. unfold process_message. cbv zeta.
+  destruct ((h_type h =? MT_CONNECT) || (h_type h =? MT_CONNECT_V2)).
+  { unfold bind at 1. pose proof Hs as (R & I0 & U & D & N).
+    pose proof (connect_module_spec cfg FUEL c h ip s R D Hreg) as C.
+    pose proof (connect_module_ok c h ip s R D Hl Hreg) as Nc.
+    destruct (connect_module cfg FUEL c h ip s) as [ok s1|e s1]; [|exact Nc].
+    destruct C as (R1 & K1 & D1 & P1). pose proof (conn_StepInv c s s1 Hs R1 K1 D1 P1) as Hs1.
+    assert (Hl1 : Len n s1) by (unfold Len in *; rewrite (KeepX_len _ _ _ K1); exact Hl).
+    destruct ok; [|exact I].
+    apply (NS_bind (send_ack cfg FUEL c) _ (S_send_ack cfg FUEL c) (L_send_ack c) (NS_send_ack c)); [|exact Hs1|exact Hl1].
+    intros _. apply NS_bind; [apply S_send_client_info|apply L_send_client_info|apply NS_send_client_info|].
+    intros _. apply NS_mlog. }
+  destruct (h_type h =? MT_DISCONNECT).
+  { apply (NS_bind _ _ (S_remove_module cfg FUEL c) (L_remove_module c) (NS_remove_module c)); [|exact Hs|exact Hl].
+    intros _. apply NS_mlog. }
+  destruct ((h_type h =? MT_SUBSCRIBE) || (h_type h =? MT_RESUME_SUBSCRIPTION)).
+  { unfold bind at 1. destruct ip; try (cbn [ret]; apply NS_send_ack; assumption).
+    pose proof (Tpre_Spre _ _ (add_subscription_T cfg FUEL c msg_type) s Hs Hreg) as A.
+    pose proof (ot_add_subscription cfg FUEL (Len n) LV LS LC c msg_type s Hl) as B.
+    pose proof (NS_add_subscription c msg_type s Hreg Hs Hl) as Nc.
+    destruct (add_subscription cfg FUEL c msg_type s) as [u s1|e s1]; [|exact Nc]. apply NS_send_ack; assumption. }
+  destruct ((h_type h =? MT_UNSUBSCRIBE) || (h_type h =? MT_PAUSE_SUBSCRIPTION)).
+  { unfold bind at 1. destruct ip; try (cbn [ret]; apply NS_send_ack; assumption).
+    pose proof (Tpre_Spre _ _ (remove_subscription_T cfg FUEL c msg_type) s Hs Hreg) as A.
+    pose proof (ot_remove_subscription cfg FUEL (Len n) LV LS LC c msg_type s Hl) as B.
+    pose proof (NS_remove_subscription c msg_type s Hreg Hs Hl) as Nc.
+    destruct (remove_subscription cfg FUEL c msg_type s) as [u s1|e s1]; [|exact Nc]. apply NS_send_ack; assumption. }
+  destruct (h_type h =? MT_CLIENT_SET_NAME).
+  { revert s Hs Hl Hreg. intros s Hs Hl _. revert s Hs Hl.
+    assert (Sn : forall nm, S (set_mod c (fun m => mm_name m nm))).
+    { intros nm. apply S_set_keeps; [apply keeps_name|reflexivity|intro; apply km_name]. }
+    apply NS_bind; [| | |intros _; apply NS_send_client_info].
+    - destruct ip; try apply S_mlog. destruct ascii; [|apply S_mlog].
+      apply S_bind; [apply Sn|intros _; apply S_mlog].
+    - destruct ip; try apply L_mlog. destruct ascii; [|apply L_mlog].
+      apply pres_bind; [apply Len_set_mod|intros _; apply L_mlog].
+    - destruct ip; try apply NS_mlog. destruct ascii; [|apply NS_mlog].
+      apply NS_bind; [apply Sn|apply Len_set_mod|apply NS_set_mod|intros _; apply NS_mlog]. }
+  destruct (h_type h =? MT_MODULE_READY).
+  { revert s Hs Hl Hreg. intros s Hs Hl _. revert s Hs Hl.
+    apply NS_bind; [| | |intros _; apply NS_send_client_info].
+    - destruct ip; try apply S_ret. apply S_set_keeps; [apply keeps_pid|reflexivity|intro; apply km_pid].
+    - destruct ip; try apply pres_ret. apply Len_set_mod.
+    - destruct ip; try apply NS_ret. apply NS_set_mod. }
+  revert s Hs Hl Hreg. intros s Hs Hl _. revert s Hs Hl.
+  apply NS_bind; [apply S_mlog|apply L_mlog|apply NS_mlog|]. intros _. apply NS_fwd.
+Qed.
+
+Lemma NS_service c ib : NS (service cfg FUEL c ib).
+Proof.
+  unfold service. apply NS_get. intros s Hs Hl.
+  destruct (m_reg (find_mod c (mods s))) eqn:Hreg; cbn [negb]; [|exact I].
+  assert (Rm : forall lvl, NS (remove_module cfg FUEL c ;;; mlog cfg FUEL lvl)).
+  { intros lvl. apply NS_bind; [apply S_remove_module|apply L_remove_module|apply NS_remove_module|]. intros _. apply NS_mlog. }
+  destruct ib as [h ip| |h| |h].
+  - destruct (bad_size (h_nbytes h)); [apply Rm; assumption|]. apply NS_process_message; auto.
+  - apply Rm; assumption.
+  - destruct (bad_size (h_nbytes h)); [apply Rm; assumption|].
+    destruct (h_nbytes h =? 0); [apply NS_process_message; auto|apply Rm; assumption].
+  - apply Rm; assumption.
+  - destruct (bad_size (h_nbytes h)); [apply Rm; assumption|].
+    destruct (h_nbytes h =? 0); [apply NS_process_message; auto|apply Rm; assumption].
+Qed.
+
+(* ---------- periodic senders ---------- *)
+
+Lemma S_mod_aux f : (forall s, mods (f s) = mods s /\ subs (f s) = subs s /\ loggers (f s) = loggers s /\
+                                dyn_off (f s) = dyn_off s /\ next_uid (f s) = next_uid s) -> S (modify f).
+Proof. apply S_modify_aux. Qed.
+
+Ltac mod_step := apply NS_bind; [apply S_mod_aux; intros; simpl; auto|apply L_modify; reflexivity|apply NS_modify|]; intros _.
+
+Lemma NS_send_timing : NS (send_timing_message cfg FUEL).
+Proof.
+  unfold send_timing_message. apply NS_get. intros s Hs Hl. rewrite timing_writes_exact.
+  pose proof Hs as (R & I0 & _).
+  destruct (pid_writes_some (registered s)) as [pw E].
+  { intros m Hm. unfold registered in Hm. apply filter_In in Hm. destruct Hm. apply I0; auto. }
+  rewrite E. cbv zeta. generalize (sending_traffic s). intros prev.
+  generalize (map (fun x : Z * Z => (fst x, wrap16 (snd x))) (filter (fun x : Z * Z => timing_slot_ok (fst x)) (counts s))).
+  intros tw. clear R I0 E. revert s Hs Hl.
+  mod_step. mod_step.
+  apply NS_bind; [apply S_send_mgr|apply L_send_mgr; reflexivity|apply NS_send_mgr|]. intros _. apply NS_modify.
+Qed.
+
+Lemma NS_send_traffic now : NS (send_traffic cfg FUEL now).
+Proof.
+  unfold send_traffic. apply NS_get. intros s Hs Hl. cbv zeta. generalize (sending_traffic s). intros prev. revert s Hs Hl.
+  mod_step.
+  apply NS_bind; [apply S_mlog|apply L_mlog|apply NS_mlog|]. intros _.
+  apply NS_get. intros s1 Hs1 Hl1. revert s1 Hs1 Hl1.
+  intros s1. generalize (traffic_seq s1), (traffic_messages (traffic s1)). intros sq l. revert s1.
+  apply NS_bind.
+  - apply S_mapM; intros [[sub ty] ct]; apply S_send_mgr.
+  - apply pres_mapM; intros [[sub ty] ct]; apply L_send_mgr; reflexivity.
+  - apply NS_mapM; intros [[sub ty] ct]; [apply S_send_mgr|apply L_send_mgr; reflexivity|apply NS_send_mgr].
+  - intros _. mod_step. mod_step. apply NS_modify.
+Qed.
+
+Lemma NS_active_loop : forall l i acc, NS (active_loop cfg FUEL i l acc).
+Proof.
+  induction l as [|c r IH]; intros i acc; cbn [active_loop]; [apply NS_ret|].
+  apply NS_get. intros s Hs Hl. cbv zeta. rewrite active_slot_in_array.
+  generalize (if active_slot_ok i then acc ++ [(m_mod_id (find_mod c (mods s)), m_pid (find_mod c (mods s)))] else acc).
+  intros acc'. revert s Hs Hl.
+  apply NS_bind; [apply S_ret|apply pres_ret|apply NS_ret|]. intros _.
+  apply NS_bind; [apply S_send_client_info|apply L_send_client_info|apply NS_send_client_info|]. intros _. apply IH.
+Qed.
+
+Lemma NS_send_active now : NS (send_active_clients cfg FUEL now).
+Proof.
+  unfold send_active_clients. apply NS_bind; [apply S_mlog|apply L_mlog|apply NS_mlog|]. intros _.
+  apply NS_get. intros s Hs Hl. revert s Hs Hl. intros s0. generalize (map m_conn (registered s0)). intros l. revert s0.
+  apply NS_bind; [apply active_loop_S|apply L_active_loop|apply NS_active_loop|]. intros entries.
+  apply NS_get. intros s1 Hs1 Hl1. revert s1 Hs1 Hl1. intros s1. generalize (Z.of_nat (length (registered s1)) - 1). intros k. revert s1.
+  apply NS_bind; [apply S_send_mgr|apply L_send_mgr; reflexivity|apply NS_send_mgr|]. intros _. apply NS_modify.
+Qed.
+
+Lemma NS_periodic now : NS (periodic cfg FUEL now).
+Proof.
+  unfold periodic. apply NS_get. intros s Hs Hl. revert s Hs Hl. intros s0.
+  generalize (timing_on cfg && elapsed now (t_timing s0) PER_timing_num PER_timing_den). intros b0. revert s0.
+  assert (Tm : forall f, (forall s, mods (f s) = mods s /\ subs (f s) = subs s /\ loggers (f s) = loggers s /\
+                                    dyn_off (f s) = dyn_off s /\ next_uid (f s) = next_uid s) ->
+                         S (send_timing_message cfg FUEL ;;; modify f) /\
+                         pres (Len n) (send_timing_message cfg FUEL ;;; modify f) /\
+                         NS (send_timing_message cfg FUEL ;;; modify f)).
+  { intros f Hf. split; [|split].
+    - apply S_bind; [apply send_timing_S|]. intros _. apply S_mod_aux. exact Hf.
+    - apply pres_bind; [apply L_send_timing|]. intros _. apply L_modify. intros s. apply (Hf s).
+    - apply NS_bind; [apply send_timing_S|apply L_send_timing|apply NS_send_timing|]. intros _. apply NS_modify. }
+  apply NS_bind.
+  { destruct b0; [|apply S_ret]. apply Tm. intros; simpl; auto. }
+  { destruct b0; [|apply pres_ret]. apply Tm. intros; simpl; auto. }
+  { destruct b0; [|apply NS_ret]. apply Tm. intros; simpl; auto. }
+  intros _. apply NS_get. intros s1 Hs1 Hl1. revert s1 Hs1 Hl1. intros s1.
+  generalize (elapsed now (t_traffic s1) PER_traffic_num PER_traffic_den). intros b1. revert s1.
+  apply NS_bind.
+  { destruct b1; [apply send_traffic_S|apply S_ret]. }
+  { destruct b1; [apply L_send_traffic|apply pres_ret]. }
+  { destruct b1; [apply NS_send_traffic|apply NS_ret]. }
+  intros _.
+  apply NS_get. intros s2 Hs2 Hl2. revert s2 Hs2 Hl2. intros s2.
+  generalize (elapsed now (t_info s2) PER_info_num PER_info_den). intros b2. revert s2.
+  destruct b2; [apply NS_send_active|apply NS_ret].
+Qed.
+
 End TopFuel.
